@@ -477,6 +477,40 @@ def body(chk, db, cfgname):
                 else:
                     r6.bad(site, g.loc(j), "std::equal(%s.begin(), %s.end(), %s.begin()) is evaluated without a.size() == b.size(): only the first a.size() factors are compared, so a shorter monomial equals any longer one "
                            "with that prefix (the constant 1 compares equal to 1*c^+_0 c_0), and a longer one reads past the end of the shorter" % (short(ca), short(ca), short(cb)), cfgname)
+            # an equality written without std::equal (hand-written merge of the two ranges): wherever it answers
+            # "equal" both ranges must be known to be exhausted, otherwise a polynomial equals every longer one it is a prefix of
+            if not g.calls(callee_re=r"^std::equal") and len(g.params) == 2:
+                pa, pb = [("param", p_["d"], p_["n"]) for p_ in g.params]
+                site = "%s:hand-written-comparison" % g.sig
+                trues = []
+                for j, n in g.walk(g.body):
+                    if n["k"] == "return" and n.get("sub") is not None:
+                        rk = gctx.key(n["sub"])
+                        rk = rk[2] if rk[0] == "cast" else rk
+                        trues.append((j, rk))
+                loops = [j for j, n in g.walk(g.body) if n["k"] in ("for", "while", "do")]
+                if loops and trues:
+                    def exhausted(fa, rk, P_):
+                        ends = lambda k: k[0] == "mcall" and k[1].split("::")[-1] in ("end", "cend") and key_contains(k, lambda y: y == P_)
+                        for x in list(fa) + ([("==", rk[2], rk[3])] if rk[0] == "op" and rk[1] == "==" and len(rk) == 4 else []):
+                            if x[0] == "==" and (ends(x[1]) or ends(x[2])):
+                                return True
+                            if x[0] == "==" and key_contains(x[1], lambda y: y[0] == "mcall" and y[1].endswith("::size")) and key_contains(x, lambda y: y == pa) and key_contains(x, lambda y: y == pb):
+                                return True
+                        return False
+                    verdict = None
+                    for j, rk in trues:
+                        if rk == ("lit", 0):
+                            continue
+                        fa = gat.get(g.cfg.pos1(j), frozenset())
+                        ea, eb = exhausted(fa, rk, pa), exhausted(fa, rk, pb)
+                        if not (ea and eb):
+                            verdict = (j, "answers 'equal' at %s although %s may still have monomials that were never looked at: every polynomial equals any longer one it is a prefix of (Operator() == X for every X), so commutes() holds whenever A*B vanishes" % (
+                                g.loc(j), "the right operand" if ea else ("the left operand" if eb else "either operand")))
+                    if verdict:
+                        r6.bad(site, g.loc(verdict[0]), verdict[1], cfgname)
+                    else:
+                        r6.unknown(site, g.loc(), "hand-written comparison loop: both ranges are exhausted where it answers 'equal', the element-wise part is not analysed", cfgname)
     chk.undecided.append("correctness of the recursive bubble sort for every polynomial (associativity, CAR, agreement with Jordan-Wigner matrices) — needs an inductive proof, not a structural rule")
 
 
